@@ -9,7 +9,7 @@ from common import Rng
 from gen_prog import INT, arr_type, arr_val, ival
 
 LEVEL = "proof"
-THEOREMS = ["C16_source_label_cell", "C16_keys", "C16_keys_rendered", "C16_frame", "C16_errors", "C16_usable", "C16_generated_good", "C16_facts_matter", "C16_source_label",]
+THEOREMS = ["C16_source_label_cell", "C16_source_label_history", "C16_keys", "C16_keys_rendered", "C16_frame", "C16_errors", "C16_usable", "C16_generated_good", "C16_facts_matter", "C16_source_label",]
 RULE = (
     "pairs / triples of trees with array leaves checked against PyTree[L, 'T'] (and 'S') inside one context or "
     "one decorated call, L containing '?n' / '*?v' / '?n ?m' / 'b ?n' alone or inside Union, tuple and "
